@@ -17,6 +17,7 @@ sop updm <hex|-> <0|1> <n|k|x|e>   → ok <hex> | notfound | rejected   (Update*
 sop updi <hex|-> <hex|-> <0|1> <n|k|x|e> → the same for UpdatePublication(id, message carrying that Id)
 sop delete <hex|-> <0|1>           → ok <hex> | notfound               (1: allow-missing)
 sop initial <hex|->                → ok <hex> | exists | rejected      (a WithInitial… record)
+sop raw <hex|-> <hex|->            → ok <hex> | exists                 (resource.WithInitialRecord(storage id, message with that key field))
 listing                            → <hex,…|->        (Collection.List: items by storage id, shown by key field)
 page <gt|ge> <size> <E|B|K<hex>>   → ok <hex,…|-> <N|T<hex>> <total> | err <Code> | panic
 codec <gt|ge> <hex bytes>           → <first page> | <page after its token>   or   invalid (not UTF-8)
@@ -144,6 +145,14 @@ def stepSt (st : St) (toks : List String) : Option (St × String) :=
   | ["sop", "initial", id] => do
     let id ← unhexId? id
     pure (st.apply (.initial id))
+  | ["sop", "raw", sid, key] => do
+    -- resource.WithInitialRecord(sid, message whose key field is `key`): a raw resource option, not an API of the models
+    let sid ← unhexId? sid
+    let key ← unhexId? key
+    if st.f sid ∈ st.recs.ids then pure (st, "exists")
+    else
+      let recs : RStore := { id := st.f sid, key := key } :: st.recs
+      pure ({ st with recs := recs, keys := flisting recs }, "ok " ++ (if key = "" then "-" else hex key))
   | ["listing"] => pure (st, showKeys (rlisting st.recs))
   | _ => none
 
